@@ -28,8 +28,9 @@ class T:
 
 types = []      # dicts: ident, panics, is_union
 mentions = {}   # ident -> idents of the types its definition mentions, transitively
+last_fields_idents = []  # idents of the fields gen_fields produced last
 used_here = []  # named types already mentioned by the definition being generated
-cur = {"panics": False}
+cur = {"panics": False, "simple": True}
 
 
 def ty_expr(depth, allow_named=True, avoid_union=False):
@@ -64,6 +65,7 @@ def ty_expr(depth, allow_named=True, avoid_union=False):
     again = [t for t in cands if t["ident"] in seen or (mentions.get(t["ident"], set()) & seen)]
     t = rnd.choice(again) if again and rnd.random() < 0.4 else rnd.choice(cands)
     used_here.append(t["ident"])
+    cur["simple"] = False
     return t["ident"], f"(named {hx(t['ident'])})", f"{t['ident']}::make(rng, depth + 1)", t["is_union"]
 
 
@@ -85,19 +87,25 @@ def q(s):
     return json.dumps(s)
 
 
-def gen_fields(rule, idents):
+rename_counter = [0]
+
+
+def gen_fields(rule, idents, exclude=()):
     fields_rust, fields_sexp, fields_gen = [], [], []
     n = rnd.choice([0, 1, 2, 3, 4, 5])
     used = set()
+    last_fields_idents.clear()
     for _ in range(n):
-        ident = rnd.choice([i for i in idents if i not in used] or ["zz"])
-        if ident in used:
+        ident = rnd.choice([i for i in idents if i not in used and i not in exclude] or ["zz"])
+        if ident in used or ident in exclude:
             continue
         used.add(ident)
+        last_fields_idents.append(ident)
         r, x, g, u = ty_expr(0)
         attrs, rename, skip, default, aliases, doc = [], None, False, None, [], None
         if rnd.random() < 0.12:
-            rename = rnd.choice(["renamed", "otherName", "r_2"]) + str(len(used))
+            rename_counter[0] += 1
+            rename = rnd.choice(["renamed", "otherName", "r_2"]) + str(rename_counter[0])
             attrs.append(f"#[serde(rename = {q(rename)})]")
         if rnd.random() < 0.12:
             skip = True
@@ -113,7 +121,7 @@ def gen_fields(rule, idents):
             attrs.append(f"#[avro(doc = {q(doc)})]")
         fields_rust.append("".join(f"    {a}\n" for a in attrs) + f"    pub {ident}: {r},")
         dj = "-" if default is None else json_sexp(json.loads(default))
-        fields_sexp.append(f"(field {hx(ident)} {x} {hx(rename) if rename else '-'} {int(skip)} {dj} ({' '.join(hx(a) for a in aliases)}) {hx(doc) if doc else '-'})")
+        fields_sexp.append(f"(field {hx(ident)} {x} {hx(rename) if rename else '-'} {int(skip)} {dj} ({' '.join(hx(a) for a in aliases)}) {hx(doc) if doc else '-'} 0)")
         fields_gen.append(f"{ident}: " + ("Default::default()" if skip else g))
     return fields_rust, fields_sexp, fields_gen
 
@@ -159,7 +167,23 @@ for i in range(N):
     ident = f"T{i}"
     used_here.clear()
     cur["panics"] = False
+    cur["simple"] = True
     roll = rnd.random()
+    if i % 9 == 4:
+        # #[serde(transparent)]: no other container attribute is allowed
+        r, x, g, u = ty_expr(0)
+        with_cache = rnd.random() < 0.4
+        dflt = default_json(r) if rnd.random() < 0.3 else None
+        attr = f"    #[avro(default = {q(dflt)})]\n" if dflt else ""
+        out.append("#[derive(Serialize, Deserialize, AvroSchema, Debug, Clone, PartialEq, Default)]\n#[serde(transparent)]\n" +
+                   f"pub struct {ident} {{\n{attr}    pub inner: {r},\n" + ("    #[serde(skip)]\n    pub cache: i32,\n" if with_cache else "") + "}\n" +
+                   f"impl Make for {ident} {{\n    fn make(rng: &mut Rng, depth: usize) -> Self {{\n        let _ = (&rng, depth);\n        {ident} {{ inner: {g}" +
+                   (", cache: 0" if with_cache else "") + " }\n    }\n}\n")
+        dj = "-" if dflt is None else json_sexp(json.loads(dflt))
+        fsx = [f"(field {hx('inner')} {x} - 0 {dj} () - 0)"] + ([f"(field {hx('cache')} i32 - 1 - () - 0)"] if with_cache else [])
+        descs.append(f"(transparent {hx(ident)} (fields {' '.join(fsx)}))")
+        types.append({"ident": ident, "panics": cur["panics"], "is_union": u, "kind": "transparent"})
+        continue
     container = []
     ns = rnd.choice(NAMESPACES)
     rename = None
@@ -197,15 +221,29 @@ impl Make for T0 {
     }
 }
 """)
-        descs.append(f"(struct {hx('T0')} {hx('T0')} - () none (fields (field {hx('v')} i32 - 0 - () -) (field {hx('kids')} (vec (named {hx('T0')})) - 0 - () -) (field {hx('next')} (option (boxed (named {hx('T0')}))) - 0 - () -)))")
+        descs.append(f"(struct {hx('T0')} {hx('T0')} - () none (fields (field {hx('v')} i32 - 0 - () - 0) (field {hx('kids')} (vec (named {hx('T0')})) - 0 - () - 0) (field {hx('next')} (option (boxed (named {hx('T0')}))) - 0 - () - 0)))")
         types.append({"ident": "T0", "panics": False, "is_union": False})
         continue
     if roll < 0.65:
-        fr, fs, fg = gen_fields(rule, FIELD_IDENTS)
+        flat = None
+        targets = [t for t in types if t.get("simple") and t.get("kind") == "struct"]
+        if targets and rnd.random() < 0.3:
+            flat = rnd.choice(targets)
+        fr, fs, fg = gen_fields(rule, FIELD_IDENTS, exclude=flat["idents"] if flat else ())
+        my_idents = list(last_fields_idents)
+        if flat:
+            pos = rnd.randrange(len(fr) + 1)
+            fid = "flat_part"
+            fr.insert(pos, f"    #[serde(flatten)]\n    pub {fid}: {flat['ident']},")
+            fs.insert(pos, f"(field {hx(fid)} (named {hx(flat['ident'])}) - 0 - () - 1)")
+            fg.insert(pos, f"{fid}: {flat['ident']}::make(rng, depth + 1)")
+            used_here.append(flat["ident"])
+            cur["simple"] = False
         out.append(hdr + f"pub struct {ident} {{\n" + "\n".join(fr) + "\n}\n" +
                    f"impl Make for {ident} {{\n    fn make(rng: &mut Rng, depth: usize) -> Self {{\n        let _ = (&rng, depth);\n        {ident} {{ " + ", ".join(fg) + " }\n    }\n}\n")
         descs.append(f"(struct {hx(ident)} {hx(name)} {hx(doc) if doc else '-'} ({' '.join(hx(a) for a in aliases)}) {rule[1]} (fields {' '.join(fs)}))")
-        types.append({"ident": ident, "panics": cur["panics"], "is_union": False})
+        types.append({"ident": ident, "panics": cur["panics"], "is_union": False, "kind": "struct",
+                      "simple": cur["simple"] and "kebab" not in rule[1] and not flat, "idents": my_idents})
     else:
         data = roll > 0.80
         nv = rnd.choice([1, 2, 3, 4])
